@@ -83,7 +83,7 @@ def hessian_multiplier(prog: Program, rep) -> None:
             want_m = oracle(prog, "IT.lag_hess(IT.y + rho * IT.cons)", None, {"rho": Poly.scalar("rho")}, recv_tags={"IT": "it:IT"})
             want_atom = next(iter(want_m.terms))[1][0]
             ok_m = mults == [want_atom]
-            rep.check(ok_m, "hessian-multiplier", m.qualname, short(si.stmt),
+            rep.check(ok_m, "hessian-multiplier", m.qualname, f"Hessian held at multiplier {mults} (aug_lag_deriv_xx called with penalty argument {U(arg)})",
                       f"{c.name} holds the Lagrangian Hessian at the multiplier y + rho*c of ITS rho (found {mults}, required {want_atom})", m.loc(call))
             # standard solver additionally carries rho*J'J, the scaled ones must not (eliminated through the (2,2) block)
             has_jtj = isinstance(got, Poly) and any(nn == ("J[IT]'", "J[IT]") for (s, nn) in got.terms)
